@@ -4,7 +4,7 @@
    token stream from the real implementation. *)
 From Coq Require Import String Ascii.
 From Radius Require Import Base.Bytes Base.Guard Base.Res Gen.Consts
-  Model.Attrs Model.Packet Model.Passwords Spec.C09 Spec.C01 Spec.C03 Spec.C04 Spec.C11.
+  Model.Attrs Model.Packet Model.Passwords Model.Codecs Spec.C10 Spec.C09 Spec.C01 Spec.C03 Spec.C04 Spec.C11.
 From Radius Require Import Crypto.MD5.
 Open Scope list_scope.
 Open Scope nat_scope.
@@ -163,13 +163,67 @@ Definition dispatch_pw (name : bytes) (bs : list bytes) (zs : list Z) : option (
   else if name_is name "s.tp" then Some (t_res_s (spec_tunnel_password md5 (b1 bs) (b2 bs) (b3 bs)) t_pair)
   else None.
 
+(* ---- C10 ---- *)
+Definition t_n (n : N) : list tok := [TI (Z.of_N n)].
+Definition t_z (z : Z) : list tok := [TI z].
+Definition t_nb (p : N * bytes) : list tok := [TI (Z.of_N (fst p)); TB (snd p)].
+Definition zn (zs : list Z) : N := Z.to_N (z1 zs).
+
+Definition dispatch_codec (name : bytes) (bs : list bytes) (zs : list Z) : option (list tok) :=
+  if name_is name "m.integer" then Some (t_res (integer (b1 bs)) t_n)
+  else if name_is name "s.integer" then Some (t_res_s (spec_dec_uint 4 (b1 bs)) t_n)
+  else if name_is name "m.short" then Some (t_res (short (b1 bs)) t_n)
+  else if name_is name "s.short" then Some (t_res_s (spec_dec_uint 2 (b1 bs)) t_n)
+  else if name_is name "m.integer64" then Some (t_res (integer64 (b1 bs)) t_n)
+  else if name_is name "s.integer64" then Some (t_res_s (spec_dec_uint 8 (b1 bs)) t_n)
+  else if name_is name "m.new_integer" then Some [TB (new_integer (zn zs))]
+  else if name_is name "s.new_integer" then Some [TB (spec_enc_uint 4 (zn zs))]
+  else if name_is name "m.new_short" then Some [TB (new_short (zn zs))]
+  else if name_is name "s.new_short" then Some [TB (spec_enc_uint 2 (zn zs))]
+  else if name_is name "m.new_integer64" then Some [TB (new_integer64 (zn zs))]
+  else if name_is name "s.new_integer64" then Some [TB (spec_enc_uint 8 (zn zs))]
+  else if name_is name "m.new_string" then Some (t_res (new_string (b1 bs)) t_bytes)
+  else if name_is name "s.new_string" then Some (t_res_s (spec_new_octets (b1 bs)) t_bytes)
+  else if name_is name "m.new_bytes" then Some (t_res (new_bytes (b1 bs)) t_bytes)
+  else if name_is name "s.new_bytes" then Some (t_res_s (spec_new_octets (b1 bs)) t_bytes)
+  else if name_is name "m.ipaddr" then Some (t_res (ipaddr (b1 bs)) t_bytes)
+  else if name_is name "s.ipaddr" then Some (t_res_s (spec_fixed 4 (b1 bs)) t_bytes)
+  else if name_is name "m.new_ipaddr" then Some (t_res (new_ipaddr (b1 bs)) t_bytes)
+  else if name_is name "s.new_ipaddr" then Some (t_res_s (spec_new_ipaddr (b1 bs)) t_bytes)
+  else if name_is name "m.ipv6addr" then Some (t_res (ipv6addr (b1 bs)) t_bytes)
+  else if name_is name "s.ipv6addr" then Some (t_res_s (spec_fixed 16 (b1 bs)) t_bytes)
+  else if name_is name "m.new_ipv6addr" then Some (t_res (new_ipv6addr (b1 bs)) t_bytes)
+  else if name_is name "s.new_ipv6addr" then Some (t_res_s (spec_new_ipv6addr (b1 bs)) t_bytes)
+  else if name_is name "m.ifid" then Some (t_res (ifid (b1 bs)) t_bytes)
+  else if name_is name "s.ifid" then Some (t_res_s (spec_fixed 8 (b1 bs)) t_bytes)
+  else if name_is name "m.new_ifid" then Some (t_res (new_ifid (b1 bs)) t_bytes)
+  else if name_is name "s.new_ifid" then Some (t_res_s (spec_fixed 8 (b1 bs)) t_bytes)
+  else if name_is name "m.date" then Some (t_res (date (b1 bs)) t_z)
+  else if name_is name "s.date" then Some (t_res_s (spec_date (b1 bs)) t_z)
+  else if name_is name "m.new_date" then Some (t_res (new_date (z1 zs)) t_bytes)
+  else if name_is name "s.new_date" then Some (t_res_s (spec_new_date (z1 zs)) t_bytes)
+  else if name_is name "m.vsa" then Some (t_res (vendor_specific (b1 bs)) t_nb)
+  else if name_is name "s.vsa" then Some (t_res_s (spec_vsa (b1 bs)) t_nb)
+  else if name_is name "m.new_vsa" then Some (t_res (new_vendor_specific (zn zs) (b1 bs)) t_bytes)
+  else if name_is name "s.new_vsa" then Some (t_res_s (spec_new_vsa (zn zs) (b1 bs)) t_bytes)
+  else if name_is name "m.tlv" then Some (t_res (tlv_dec (b1 bs)) t_nb)
+  else if name_is name "s.tlv" then Some (t_res_s (spec_tlv6929 (b1 bs)) t_nb)
+  else if name_is name "m.new_tlv" then Some (t_res (new_tlv (zn zs) (b1 bs)) t_bytes)
+  else if name_is name "s.new_tlv" then Some (t_res_s (spec_new_tlv (zn zs) (b1 bs)) t_bytes)
+  else if name_is name "m.prefix" then Some (t_res (ipv6prefix (b1 bs)) t_pair)
+  else if name_is name "s.prefix" then Some (t_res_s (spec_ipv6prefix (b1 bs)) t_pair)
+  else if name_is name "m.new_prefix" then Some (t_res (new_ipv6prefix (b1 bs) (b2 bs)) t_bytes)
+  else if name_is name "s.new_prefix" then Some (t_res_s (spec_new_ipv6prefix (b1 bs) (b2 bs)) t_bytes)
+  else None.
+
 Definition dispatch (name : bytes) (bs : list bytes) (zs : list Z) : list tok :=
   if name_is name "m.attrs_run" then run_attrs false bs zs
   else if name_is name "s.attrs_run" then run_attrs true bs zs
   else if name_is name "md5" then match bs with b :: _ => [TB (md5 b)] | [] => [] end
   else match dispatch_c01 name bs zs with Some t => t | None =>
   match dispatch_pw name bs zs with Some t => t | None =>
-  [TI (-97)] end end.
+  match dispatch_codec name bs zs with Some t => t | None =>
+  [TI (-97)] end end end.
 
 Require Extraction.
 Require Import ExtrOcamlBasic.
